@@ -69,6 +69,8 @@ def check(chk):
     rets = [x for x in walk_local(gt.node) if isinstance(x, ast.Return)]
     t = src(rets[0].value).replace(" ", "") if rets else ""
     ok = t in ("self.priority>other.priorityor(self.priority==other.priorityandself.key>other.key)",
+               "self.priority>other.priorityor(other.priority==self.priorityandself.key>other.key)",
+               "self.priority>other.priorityorother.priority==self.priorityandself.key>other.key",
                "self.priority>other.priorityorself.priority==other.priorityandself.key>other.key",
                "(self.priority,self.key)>(other.priority,other.key)")
     chk.ob("SORT-3", "stack entries are ordered by (priority, key)", ok, gt.where(), detail=t, construct=gt.ident, text="entry order " + t)
@@ -335,7 +337,7 @@ def check(chk):
            text="batch set_fade")
     md = repo.func(BL, "PlatformBatchLightSystem.mark_dirty")
     ok = any(call_attr(c) == "add" and src(c.func.value) == "self.dirty_lights" for c in md.calls()) and \
-        any(isinstance(x, ast.Assign) and src(x.targets[0]) == "self.dirty_schedule" and "x[1] != light" in src(x.value) for x in walk_local(md.node))
+        any(isinstance(x, ast.Assign) and src(x.targets[0]) == "self.dirty_schedule" and ("x[1] != light" in src(x.value) or "light != x[1]" in src(x.value)) for x in walk_local(md.node))
     chk.ob("BATCH-1", "marking dirty queues the light and drops its pending fade steps", ok, md.where(), construct=md.ident, text="mark_dirty")
     # BATCH-2: nothing falls out of the batches
     batch_conservation(chk, "BATCH-2", g, "sequential_brightness_list", "update_callback", "light", "sequential_lights",
